@@ -62,7 +62,7 @@ fn heap_cap<T: MemSize>(x: &T) -> usize {
 // ---------------------------------------------------------------------------
 // bit vectors and bit-field vectors
 
-const BV_CTORS: &[&str] = &["new", "with_value", "collect", "push", "extend", "resize-grow", "with_capacity+push", "macro"];
+const BV_CTORS: &[&str] = &["new", "with_value", "collect", "push", "extend", "resize-grow", "with_capacity+push", "extend-batches", "mixed-growth", "macro"];
 
 fn bitvec_case(c: &mut Case, ctor: &str, lens: &[usize]) {
     let mut shown = Vec::new();
@@ -105,6 +105,36 @@ fn bitvec_case(c: &mut Case, ctor: &str, lens: &[usize]) {
                     }
                     (heap(&b), None)
                 }
+                "extend-batches" => {
+                    // grown by many small extensions at lengths that are not word-aligned
+                    let mut b = BitVec::new(len % 37);
+                    let mut k = 0usize;
+                    while b.len() < len {
+                        let batch = (1 + (k * 7) % 69).min(len - b.len());
+                        b.extend((0..batch).map(|i| (i + k) % 3 == 0));
+                        k += 1;
+                    }
+                    (heap(&b), None)
+                }
+                "mixed-growth" => {
+                    // pushes, extensions, growing resizes and collect interleaved
+                    let mut b: BitVec = (0..len % 11).map(|i| i % 2 == 0).collect();
+                    let mut k = 0usize;
+                    while b.len() < len {
+                        let left = len - b.len();
+                        match k % 4 {
+                            0 => b.push(k % 3 == 0),
+                            1 => b.extend((0..(1 + (k * 5) % 40).min(left)).map(|i| i % 2 == 1)),
+                            2 => {
+                                let nl = b.len() + (1 + (k * 3) % 130).min(left);
+                                b.resize(nl, k % 2 == 0)
+                            }
+                            _ => b.extend(std::iter::repeat(true).take(1.min(left))),
+                        }
+                        k += 1;
+                    }
+                    (heap(&b), None)
+                }
                 _ => {
                     let b = if len % 2 == 0 { sux::bit_vec![false; len] } else { sux::bit_vec![true; len] };
                     (heap(&b), None)
@@ -125,7 +155,7 @@ fn bitvec_case(c: &mut Case, ctor: &str, lens: &[usize]) {
     c.describe(|| format!("ctor={} lens={:?}", ctor, shown));
 }
 
-const BFV_CTORS: &[&str] = &["new", "new_unaligned", "push", "with_capacity+push", "resize-grow", "extend", "from_slice", "macro"];
+const BFV_CTORS: &[&str] = &["new", "new_unaligned", "push", "with_capacity+push", "resize-grow", "extend", "extend-batches", "from_slice", "macro"];
 
 macro_rules! bfv_size {
     ($c:ident, $W:ty, $wname:expr, $ctor:expr, $pairs:expr) => {{
@@ -166,6 +196,24 @@ macro_rules! bfv_size {
                     "extend" => {
                         let mut v = BitFieldVec::<$W>::new(width, len / 4);
                         v.extend((0..len - len / 4).map(|_| maxv));
+                        (heap(&v), None, 0)
+                    }
+                    "extend-batches" => {
+                        // grown by many small extensions, pushes and growing resizes
+                        let mut v = BitFieldVec::<$W>::new(width, len % 5);
+                        let mut k = 0usize;
+                        while sux::traits::BitFieldSliceCore::<$W>::len(&v) < len {
+                            let left = len - sux::traits::BitFieldSliceCore::<$W>::len(&v);
+                            match k % 3 {
+                                0 => v.extend((0..(1 + (k * 7) % 23).min(left)).map(|_| maxv)),
+                                1 => v.push(0),
+                                _ => {
+                                    let nl = sux::traits::BitFieldSliceCore::<$W>::len(&v) + (1 + (k * 3) % 17).min(left);
+                                    v.resize(nl, maxv)
+                                }
+                            }
+                            k += 1;
+                        }
                         (heap(&v), None, 0)
                     }
                     "from_slice" => {
